@@ -44,10 +44,12 @@ type finding struct {
 }
 
 type mon struct {
-	r      *vf.Run
-	finds  map[string]*finding
-	order  []string
-	values int
+	prevOK       bool
+	prevV, prevD reflect.Value
+	r            *vf.Run
+	finds        map[string]*finding
+	order        []string
+	values       int
 }
 
 func (m *mon) get(sig, what string) *finding {
@@ -71,6 +73,11 @@ func (m *mon) causes(v reflect.Value, name string) []cause {
 	}
 	in := append([]byte{}, rb...) // the caller's receive buffer
 	d, derr, dpan := hcUnmarshal(in, v.Type())
+	// what the PREVIOUS Unmarshal returned is still the caller's: this call must not have changed it
+	if m.prevOK && !equalNorm(m.prevV, m.prevD) {
+		cs = append(cs, cause{"unmarshal:earlier-result-changed", "a value returned by an earlier Unmarshal call changed during a later Unmarshal call (shared buffers)", name, map[string]interface{}{}})
+	}
+	m.prevOK = false
 	if !(dpan == "" && derr == nil && equalNorm(v, d)) {
 		cs = append(cs, diagDecode(v, name)...)
 	} else {
@@ -82,6 +89,9 @@ func (m *mon) causes(v reflect.Value, name string) []cause {
 		}
 		for i := range in {
 			in[i] = 0xEE
+		}
+		if equalNorm(v, d) {
+			m.prevOK, m.prevV, m.prevD = true, v, d
 		}
 		if !equalNorm(v, d) {
 			cs = append(cs, cause{"unmarshal:value-aliases-input", "the decoded value changes when the caller overwrites the buffer it passed to Unmarshal", name, map[string]interface{}{}})
